@@ -9,7 +9,8 @@ use crate::world::{Cfg, Session, Tr};
 use serde_json::{Value, json};
 use std::collections::BTreeMap;
 
-/// a catch: (code or None = catch-all, body: 0 none / 1 msg step / 2 irq step)
+/// a catch: (code or None = catch-all, body: 0 none / 1 msg step / 2 irq step /
+/// 3 irq step whose act has a catch-all of its own with a msg step, and which the client fails with e9)
 pub type CatchSpec = (Option<&'static str>, u8);
 
 #[derive(Clone, Debug)]
@@ -23,6 +24,8 @@ pub struct Scn {
     pub on_outer: Vec<CatchSpec>,
     /// error source: client error with a code, a throwing script, an unknown package
     pub source: &'static str,
+    /// the sibling branch of the failing one is an `else` branch (parked, never taken)
+    pub sibling_else: bool,
 }
 
 fn all_lists() -> Vec<Vec<CatchSpec>> {
@@ -46,7 +49,7 @@ fn name(l: &[CatchSpec]) -> String {
     if l.is_empty() {
         return "-".into();
     }
-    l.iter().map(|(c, b)| format!("{}{}", c.unwrap_or("all"), ["", ":msg", ":irq"][*b as usize])).collect::<Vec<_>>().join(",")
+    l.iter().map(|(c, b)| format!("{}{}", c.unwrap_or("all"), ["", ":msg", ":irq", ":irq-failing-with-own-catch"][*b as usize])).collect::<Vec<_>>().join(",")
 }
 
 pub fn scenarios(tier: Tier) -> Vec<Scn> {
@@ -63,6 +66,7 @@ pub fn scenarios(tier: Tier) -> Vec<Scn> {
             on_step: s.clone(),
             on_outer: o.clone(),
             source: src,
+            sibling_else: false,
         });
     };
     // one placement varied over every list, the others empty
@@ -79,6 +83,16 @@ pub fn scenarios(tier: Tier) -> Vec<Scn> {
             }
         }
     }
+    // an error inside the steps of a catch, taken by a catch of its own (a catch nested in catch steps)
+    for l in [vec![(Some("e1"), 3u8)], vec![(None, 3)], vec![(Some("e2"), 1), (Some("e1"), 3)]] {
+        for src in ["e1", "script"] {
+            add(false, &l, &vec![], &vec![], src);
+            add(false, &vec![], &l, &vec![], src);
+            add(true, &vec![], &l, &vec![], src);
+            add(true, &vec![], &vec![], &l, src);
+            add(true, &vec![(Some("e7"), 1)], &vec![(Some("e8"), 1)], &l, src);
+        }
+    }
     // every combination of a small set on all placements
     for a in &small {
         for s in &small {
@@ -90,6 +104,17 @@ pub fn scenarios(tier: Tier) -> Vec<Scn> {
                     add(true, a, s, o, src);
                 }
             }
+        }
+    }
+    // the sibling of the failing branch is a parked `else` branch
+    let n = v.len();
+    for i in 0..n {
+        let sc = v[i].clone();
+        if sc.branches && sc.on_act.len() + sc.on_step.len() + sc.on_outer.len() <= tier.pick(1, 2) && matches!(sc.source, "e1" | "script" | "e3") {
+            let mut e = sc.clone();
+            e.sibling_else = true;
+            e.id = format!("{}/else-sibling", sc.id);
+            v.push(e);
         }
     }
     v
@@ -110,6 +135,7 @@ fn catches_yml(l: &[CatchSpec], ind: &str, tag: &str) -> String {
         match body {
             0 => keys.push("steps: []".into()),
             1 => keys.push(format!("steps:\n{ind}      - id: {sid}\n{ind}        acts:\n{ind}          - uses: acts.core.msg\n{ind}            key: m{sid}")),
+            3 => keys.push(format!("steps:\n{ind}      - id: {sid}\n{ind}        acts:\n{ind}          - uses: acts.core.irq\n{ind}            key: x{sid}\n{ind}            catches:\n{ind}              - steps:\n{ind}                  - id: n{sid}\n{ind}                    acts:\n{ind}                      - uses: acts.core.msg\n{ind}                        key: nm{sid}")),
             _ => keys.push(format!("steps:\n{ind}      - id: {sid}\n{ind}        acts:\n{ind}          - uses: acts.core.irq\n{ind}            key: q{sid}")),
         }
         for (k, line) in keys.iter().enumerate() {
@@ -129,10 +155,11 @@ pub fn model(sc: &Scn) -> String {
         let i = "                ";
         let act = failing.replace("{I}", i);
         format!(
-            "id: m6\nsteps:\n  - id: s1\n{}    branches:\n      - id: b1\n        if: \"true\"\n        steps:\n          - id: s11\n{}            acts:\n              - {act}{}              - uses: acts.core.irq\n                key: a2\n      - id: b2\n        if: \"true\"\n        steps:\n          - id: s21\n            acts:\n              - uses: acts.core.irq\n                key: p\n  - id: s2\n    acts:\n      - uses: acts.core.msg\n        key: after\n",
+            "id: m6\nsteps:\n  - id: s1\n{}    branches:\n      - id: b1\n        if: \"true\"\n        steps:\n          - id: s11\n{}            acts:\n              - {act}{}              - uses: acts.core.irq\n                key: a2\n      - id: b2\n        {}\n        steps:\n          - id: s21\n            acts:\n              - uses: acts.core.irq\n                key: p\n  - id: s2\n    acts:\n      - uses: acts.core.msg\n        key: after\n",
             catches_yml(&sc.on_outer, "    ", "o"),
             catches_yml(&sc.on_step, "            ", "s"),
             catches_yml(&sc.on_act, "                ", "a"),
+            if sc.sibling_else { "else: true" } else { "if: \"true\"" },
         )
     } else {
         let i = "        ";
@@ -201,6 +228,9 @@ pub fn run_one(ch: &mut Chooser, sc: &Scn, want_log: bool) -> RunObs {
             let m = &open[c - acts.len()];
             let (kind, opts) = if m.key == "a1" && !matches!(sc.source, "script" | "package") {
                 ("error", json!({"ecode": sc.source, "message": "it failed"}))
+            } else if m.key.starts_with('x') {
+                // the interrupt inside the catch steps fails too; its own catch-all takes that
+                ("error", json!({"ecode": "e9", "message": "the repair failed"}))
             } else {
                 ("complete", json!({}))
             };
@@ -228,7 +258,7 @@ pub fn run_one(ch: &mut Chooser, sc: &Scn, want_log: bool) -> RunObs {
     let mut final_state: BTreeMap<String, String> = BTreeMap::new(); // nid/key -> last state
     for t in &trace {
         if let Tr::TaskEvent { tid, nid, kind, state, key, .. } = t {
-            if kind == "step" && nid.starts_with('c') {
+            if kind == "step" && (nid.starts_with('c') || nid.starts_with("nc")) {
                 inst.entry(nid.clone()).or_default().insert(tid.clone());
             }
             final_state.insert(if kind == "act" { key.clone() } else { nid.clone() }, state.clone());
@@ -255,6 +285,15 @@ pub fn run_one(ch: &mut Chooser, sc: &Scn, want_log: bool) -> RunObs {
                     format!("catch-steps/{place}/{}-instead-of-{want}", n),
                     format!("the steps of catch {i} ({:?}) on the {place} ran {n} time(s), expected {want} (error code '{}', catcher {who:?})", list[i].0, code_of(sc)),
                 );
+            }
+            if *body == 3 {
+                let n = inst.get(&format!("n{sid}")).map(|s| s.len()).unwrap_or(0);
+                if n != want && !(horizon && n < want) {
+                    push(
+                        format!("nested-catch-steps/{place}/{}-instead-of-{want}", n),
+                        format!("the act inside the steps of catch {i} on the {place} failed and has a catch-all of its own: its steps ran {n} time(s), expected {want}"),
+                    );
+                }
             }
         }
     }
